@@ -213,6 +213,16 @@ def main(argv):
     if len(argv) >= 2 and argv[0] == "--replay":
         rp = json.load(open(argv[1]))
         prop = rp["property"]
+        if rp.get("kind") == "witness":
+            import witness
+            res = witness.run([rp["witness"]])[rp["witness"]]
+            print(f"replaying witness {rp['witness']} of {prop} against {REPO}'s working tree")
+            print(res["output"])
+            if res["passed"] is None:
+                print("UNDECIDED witness could not run"); return 2
+            if res["passed"]:
+                print(f"OK property={prop} witness passes"); return 0
+            print(f"VIOLATION property={prop} replay={argv[1]}"); return 1
         print(f"replaying obligation {rp['obligation']} of {prop}")
         print("\n".join(rp.get("verifier_output") or []))
         if rp.get("failing_input"):
@@ -301,6 +311,29 @@ def check(prop, tier, only_obligation=None):
                 kf_lines.append(f"KNOWN-FINDING: property={prop} {fd['id']}: {listed[fd['id']].get('what', fd['what'])}")
             else:
                 print(f"note: known finding {fd['id']} no longer reproduces (its full-domain obligation verifies)")
+    # real-code replay of the stored failing inputs of repaired defects: always in the thorough tier; in the quick tier only
+    # when the deductive check could not decide (a structural change lost the contract anchors)
+    witness_runs = []
+    if only_obligation is None and (tier == "thorough" or (undecided and not violations)):
+        import witness
+        ws = witness.witnesses_for(prop)
+        if ws:
+            wres = witness.run([w["file"] for w in ws])
+            for w in ws:
+                r_ = wres[w["file"]]
+                witness_runs.append({"file": w["file"], "fix": w["fix"], "passed": r_["passed"]})
+                if r_["passed"] is False:
+                    os.makedirs(os.path.join(VERIF, "replay"), exist_ok=True)
+                    path = os.path.join(VERIF, "replay", f"{prop}-witness-{slug(w['file'])}.json")
+                    json.dump({"property": prop, "kind": "witness", "obligation": "witness:" + w["file"], "witness": w["file"],
+                               "failing_input": {"test": w["file"], "scenario": w["asserts"], "repaired_by": w["fix"]},
+                               "verifier": "cargo test on a scratch copy of /repo's working tree", "verifier_output": r_["output"].splitlines(),
+                               "note": "the stored failing input of a repaired defect fails again on the real code. Re-run with: ./check --replay " + path},
+                              open(path, "w"), indent=1)
+                    violations.append(({"id": "witness:" + w["file"], "detail": r_["output"].splitlines(), "replay": path, "witness": True,
+                                        "kind": "witness", "text": w["asserts"], "fn": w["file"], "props": w["properties"]}, None))
+                elif r_["passed"] is None and tier == "thorough":
+                    undecided.append(("witness", [f"{w['file']} could not run: {r_['output'][-300:]}"]))
     n_ob = len(obligations)
     n_dis = sum(1 for o in obligations if o["verdict"] == "discharged")
     wall = time.time() - t0
@@ -333,6 +366,7 @@ def check(prop, tier, only_obligation=None):
             "known_findings": [fd for r in results for fd in r["findings"] if prop in fd["props"]],
             "undecided": [f"{u}: {'; '.join(rs)[:500]}" for u, rs in undecided],
             "not_covered": [n for r in results for n in r.get("not_covered", [])],
+            "witness_replays": witness_runs,
         },
         "assumptions": sorted(trusted),
         "wall_s": round(wall, 2),
